@@ -37,7 +37,7 @@ def san_options(flavour, logbase):
             'ASAN_OPTIONS': ('detect_leaks=0:halt_on_error=0:'
                              'allocator_may_return_null=1:'
                              'detect_stack_use_after_return=0:'
-                             'handle_segv=1:log_path=%s' % logbase),
+                             'handle_segv=1:hard_rss_limit_mb=8000:log_path=%s' % logbase),
             'UBSAN_OPTIONS': ('print_stacktrace=1:halt_on_error=0:'
                               'log_path=%s' % logbase),
         }
@@ -45,7 +45,7 @@ def san_options(flavour, logbase):
         return {
             'TSAN_OPTIONS': ('halt_on_error=0:report_signal_unsafe=0:'
                              'history_size=4:second_deadlock_stack=1:'
-                             'log_path=%s' % logbase),
+                             'hard_rss_limit_mb=10000:log_path=%s' % logbase),
         }
     return {}
 
@@ -68,14 +68,34 @@ class _Worker(object):
             extra.update(extra_env)
         env = vbuild.full_env(info, extra)
         self.errf = open(self.logbase + '.stderr', 'ab')
+        def limit():
+            if flavour == 'plain':
+                import resource
+                lim = 12 << 30
+                resource.setrlimit(resource.RLIMIT_AS, (lim, lim))
         self.p = subprocess.Popen(
             [PY, '-m', 'vlib.worker', modname], stdin=subprocess.PIPE,
+            preexec_fn=limit,
             stdout=subprocess.PIPE, stderr=self.errf, env=env,
             cwd=os.path.dirname(os.path.dirname(os.path.abspath(__file__))),
             start_new_session=True)
         self.q = queue.Queue()
         self.t = threading.Thread(target=self._reader, daemon=True)
         self.t.start()
+        self.sanpath = '%s.san.%d' % (self.logbase, self.p.pid)
+        self.sanpos = 0
+
+    def san_delta(self):
+        """What the sanitizer runtime of this worker wrote since last asked
+        (read by the driver, so it survives a dying worker)."""
+        try:
+            with open(self.sanpath, 'rb') as fp:
+                fp.seek(self.sanpos)
+                data = fp.read()
+                self.sanpos += len(data)
+            return data.decode('utf-8', 'replace')
+        except OSError:
+            return ''
 
     def _reader(self):
         for line in self.p.stdout:
@@ -84,6 +104,13 @@ class _Worker(object):
         self.q.put(None)
 
     def run(self, item, timeout):
+        r = self._run(item, timeout)
+        d = self.san_delta()
+        if d:
+            r['san'] = d[-60000:]
+        return r
+
+    def _run(self, item, timeout):
         try:
             self.p.stdin.write((json.dumps(item) + '\n').encode())
             self.p.stdin.flush()
@@ -93,12 +120,26 @@ class _Worker(object):
             r = self.q.get(timeout=timeout)
         except queue.Empty:
             self.kill()
-            return dict(status='timeout', detail='watchdog %ss' % timeout)
+            return dict(status='timeout', detail='watchdog %ss' % timeout,
+                        mark=self.last_mark())
         if r is None:
             self.p.wait()
-            return dict(status='crash', detail='worker exited rc=%s; %s' % (
-                self.p.returncode, self.stderr_tail()))
+            st = 'tainted' if self.p.returncode == 77 else 'crash'
+            return dict(status=st, detail='worker exited rc=%s; %s' % (
+                self.p.returncode, self.stderr_tail()),
+                mark=self.last_mark())
         return json.loads(r)
+
+    def last_mark(self):
+        tail = self.stderr_tail(20000)
+        k = tail.rfind('@@MARK ')
+        if k < 0:
+            return None
+        line = tail[k + 7:].split('\n', 1)[0]
+        try:
+            return json.loads(line)
+        except Exception:
+            return None
 
     def stderr_tail(self, n=2500):
         try:
